@@ -3,7 +3,7 @@
 use crate::harness::{fail, Gen, Verdict};
 use crate::keys;
 use crate::oracle::Strategy;
-use crate::pipeline::{build_crafted, honest_kb_claims, make_kb, select_all, sign, sign_raw, Cfg};
+use crate::pipeline::{build_crafted, honest_kb_claims, make_kb, select_all, sign, sign_raw, sign_raw_typ, Cfg};
 use crate::rng::Rng;
 use crate::sut::{self, Kb, Out};
 use crate::util::{jstr, now, short, Parts, FAR_EXP, J};
@@ -12,7 +12,10 @@ use serde_json::json;
 pub fn gens() -> Vec<Gen> {
     vec![
         Gen { name: "c09.signed", prop: "C09", tags: &["exp", "nbf", "leeway", "validation", "required", "src/verifier.rs"], cases: cases_signed, check },
+        Gen { name: "c09.typ_header", prop: "C09", tags: &["typ", "header", "required_spec_claims", "vc"], cases: cases_typ, check },
         Gen { name: "c09.lib_issued", prop: "C09", tags: &["issued", "hidden"], cases: cases_lib, check },
+        // slow (one case sleeps ~70 s): keep LAST; it only starts when >= 80 s of budget are left
+        Gen { name: "c09.revalidate", prop: "C09", tags: &["revalidate", "cache", "again", "second"], cases: cases_revalidate, check: check_revalidate },
     ]
 }
 
@@ -141,6 +144,28 @@ fn cases_signed(_rng: &mut Rng, sink: &mut dyn FnMut(J) -> bool) {
     }
 }
 
+/// The protected header's typ must not change the temporal verdict.
+fn cases_typ(_rng: &mut Rng, sink: &mut dyn FnMut(J) -> bool) {
+    let typs = [json!(null), json!("JWT"), json!("sd-jwt"), json!("sd+jwt"), json!("dc+sd-jwt"), json!("vc+sd-jwt"), json!("example+sd-jwt"), json!("DC+SD-JWT"), json!("application/dc+sd-jwt"), json!("kb+jwt"), json!("")];
+    let mut n = 0usize;
+    for (format, kb, alg) in [("compact", false, "ES256"), ("json", false, "EdDSA"), ("json", true, "ES256"), ("compact", true, "HS256")] {
+        for typ in &typs {
+            for (e, e_ok) in exp_specs() {
+                n += 1;
+                if !sink(json!({"mode": "signed", "typ": typ, "exp": e, "nbf": {"kind": "absent"}, "accept": e_ok, "format": format, "kb": kb, "alg": alg, "with_disclosures": n % 2 == 0})) {
+                    return;
+                }
+            }
+            for (nb, nb_ok) in nbf_specs().into_iter().step_by(3) {
+                n += 1;
+                if !sink(json!({"mode": "signed", "typ": typ, "exp": {"kind": "value", "value": FAR_EXP}, "nbf": nb, "accept": nb_ok, "format": format, "kb": kb, "alg": alg, "with_disclosures": n % 2 == 0})) {
+                    return;
+                }
+            }
+        }
+    }
+}
+
 fn cases_lib(_rng: &mut Rng, sink: &mut dyn FnMut(J) -> bool) {
     let mut n = 0usize;
     for strategy in ["NoSD", "TopLevel", "AllLevels"] {
@@ -242,9 +267,10 @@ pub fn check(case: &J) -> Verdict {
         }
         let (payload, ds) = build_crafted(&payload, &[json!(["c2FsdC1zYWx0LXNhbHQtMDE", "n0", "v0"]), json!(["c2FsdC1zYWx0LXNhbHQtMDI", "n1", {"k": 1}])]);
         let ds = if with_d { ds } else { vec![] };
-        let jwt = match splice_raw(&payload) {
-            Some(text) => sign_raw(&text, alg),
-            None => sign(&payload, alg),
+        let jwt = match (case.get("typ"), splice_raw(&payload)) {
+            (Some(t), text) => sign_raw_typ(&text.unwrap_or_else(|| jstr(&payload)), alg, t.as_str()),
+            (None, Some(text)) => sign_raw(&text, alg),
+            (None, None) => sign(&payload, alg),
         };
         let kbs = if want_kb {
             make_kb(&keys::holder_enc("es256"), "ES256", Some("kb+jwt"), &honest_kb_claims(&kb, &jwt, &ds))
@@ -255,7 +281,7 @@ pub fn check(case: &J) -> Verdict {
     };
     let o = sut::verify(&text, alg, if want_kb { Some(&kb) } else { None }, format);
     let show = |v: Option<J>| v.map(|e| jstr(&e).replace("\"@@RAW:", "").replace("@@\"", "")).unwrap_or("absent".into());
-    let what = format!("exp = {}, nbf = {} (now = {})", show(exp), show(nbf), now());
+    let what = format!("exp = {}, nbf = {}{} (now = {})", show(exp), show(nbf), case.get("typ").map(|t| format!(", header typ = {t}")).unwrap_or_default(), now());
     if !asserted {
         return match o {
             Out::Panic(m) => fail(format!("PANIC: {m} ({what})"), "Ok or Err"),
@@ -268,4 +294,85 @@ pub fn check(case: &J) -> Verdict {
         (Out::Err(e), true) => fail(format!("rejected a credential inside its window ({what}): {e}"), "accepted"),
         (Out::Panic(m), _) => fail(format!("PANIC: {m} ({what})"), if accept { "accepted" } else { "rejected with an error" }),
     }
+}
+
+/// A credential accepted while inside the leeway must be rejected when the same issuer-signed
+/// JWT is presented again after it has expired (no verdict may be remembered).
+fn cases_revalidate(rng: &mut Rng, sink: &mut dyn FnMut(J) -> bool) {
+    if let Some(left) = crate::harness::remaining_budget() {
+        if left < std::time::Duration::from_secs(80) {
+            return;
+        }
+    }
+    let first_format = if rng.coin() { "compact" } else { "json" };
+    sink(json!({"mode": "revalidate", "exp_offset": -55, "past_by": 122, "first_format": first_format}));
+}
+
+fn check_revalidate(case: &J) -> Verdict {
+    let exp = now() + case["exp_offset"].as_i64().unwrap_or(-55);
+    let past_by = case["past_by"].as_i64().unwrap_or(122);
+    let first_format = case["first_format"].as_str().unwrap_or("compact");
+    let other_format = if first_format == "compact" { "json" } else { "compact" };
+    let kb = Kb::new("es256");
+    struct Tok {
+        alg: &'static str,
+        jwt: String,
+        ds: Vec<String>,
+        kbs: Option<String>,
+    }
+    let mut toks: Vec<Tok> = Vec::new();
+    for (alg, with_kb) in [("ES256", false), ("EdDSA", false), ("HS256", false), ("ES256", true)] {
+        let mut payload = json!({"iss": "https://issuer.example/i", "exp": exp, "vis": alg, "_sd": ["#0", "#1"]});
+        if with_kb {
+            payload["cnf"] = json!({"jwk": keys::holder_jwk_json("es256")});
+        }
+        let (payload, ds) = build_crafted(&payload, &[json!(["c2FsdC1zYWx0LXNhbHQtMDE", "n0", "v0"]), json!(["c2FsdC1zYWx0LXNhbHQtMDI", "n1", {"k": 1}])]);
+        let jwt = sign(&payload, alg);
+        let kbs = if with_kb { make_kb(&keys::holder_enc("es256"), "ES256", Some("kb+jwt"), &honest_kb_claims(&kb, &jwt, &ds)) } else { None };
+        toks.push(Tok { alg, jwt, ds, kbs });
+    }
+    // first presentation, inside the leeway (verdict not asserted)
+    let mut first = Vec::new();
+    for t in &toks {
+        let text = Parts { jwt: t.jwt.clone(), disclosures: t.ds.clone(), kb: t.kbs.clone() }.serialize(first_format);
+        let o = sut::verify(&text, t.alg, if t.kbs.is_some() { Some(&kb) } else { None }, first_format);
+        if let Out::Panic(m) = &o {
+            return fail(format!("PANIC: {m}"), "Ok or Err");
+        }
+        first.push(o.brief());
+    }
+    // let the credential expire by more than leeway + margin
+    loop {
+        let left = exp + past_by - now();
+        if left <= 0 {
+            break;
+        }
+        std::thread::sleep(std::time::Duration::from_millis((left as u64 * 1000).min(1000)));
+    }
+    for (t, f) in toks.iter().zip(&first) {
+        let variants: Vec<(&str, Vec<String>, Option<String>, bool)> = vec![
+            (first_format, t.ds.clone(), t.kbs.clone(), t.kbs.is_some()),
+            (first_format, t.ds[..1].to_vec(), None, false),
+            (first_format, vec![], None, false),
+            (other_format, t.ds.clone(), t.kbs.clone(), t.kbs.is_some()),
+            (other_format, vec![t.ds[1].clone()], None, false),
+        ];
+        for (format, ds, kbs, use_kb) in variants {
+            let text = Parts { jwt: t.jwt.clone(), disclosures: ds.clone(), kb: kbs }.serialize(format);
+            match sut::verify(&text, t.alg, if use_kb { Some(&kb) } else { None }, format) {
+                Out::Err(_) => {}
+                Out::Ok(v) => {
+                    return fail(
+                        format!(
+                            "ACCEPTED the {} credential (exp = {exp}, now = {}, {} s past exp) presented again in {format} form with {} disclosure(s); the first presentation {} s earlier gave {f}; claims {}",
+                            t.alg, now(), now() - exp, ds.len(), past_by + case["exp_offset"].as_i64().unwrap_or(-55), short(&jstr(&v), 160)
+                        ),
+                        "rejected: exp lies more than the leeway in the past, whatever was decided about this JWT earlier",
+                    )
+                }
+                Out::Panic(m) => return fail(format!("PANIC: {m}"), "rejected with an error"),
+            }
+        }
+    }
+    Verdict::Pass
 }
